@@ -1,0 +1,52 @@
+//go:build verif
+
+// Contracts for the 04-packet genesis import (comment-only; read by /verif's tibcvc).
+package packet
+
+//@ // ---- C16: after InitGenesis every acknowledgement, commitment, receipt and send-sequence record of the genesis
+//@ // state is in the store under its key with its value. (Within one list the keys are assumed pairwise distinct: a
+//@ // later record for the same key replaces an earlier one; records of different lists have keys of different families.)
+//@ spec psS(L: obj, i: i64): str = as(seqobj(L, i), types.PacketState).SourceChain
+//@ spec psD(L: obj, i: i64): str = as(seqobj(L, i), types.PacketState).DestinationChain
+//@ spec psN(L: obj, i: i64): u64 = as(seqobj(L, i), types.PacketState).Sequence
+//@ spec psV(L: obj, i: i64): str = str(as(seqobj(L, i), types.PacketState).Data)
+//@ spec sqS(L: obj, i: i64): str = as(seqobj(L, i), types.PacketSequence).SourceChain
+//@ spec sqD(L: obj, i: i64): str = as(seqobj(L, i), types.PacketSequence).DestinationChain
+//@ spec sqN(L: obj, i: i64): u64 = as(seqobj(L, i), types.PacketSequence).Sequence
+//@ spec acksIn(S: store, A: obj, n: i64): bool = forall i: i64 :: 0 <=s i && i <s n ==> S[ack(psS(A, i), psD(A, i), psN(A, i))] == some(psV(A, i))
+//@ spec commitsIn(S: store, C: obj, n: i64): bool = forall i: i64 :: 0 <=s i && i <s n ==> S[commit(psS(C, i), psD(C, i), psN(C, i))] == some(psV(C, i))
+//@ spec receiptsIn(S: store, R: obj, n: i64): bool = forall i: i64 :: 0 <=s i && i <s n ==> S[receipt(psS(R, i), psD(R, i), psN(R, i))] == some("\x01")
+//@ spec seqsIn(S: store, Q: obj, n: i64): bool = forall i: i64 :: 0 <=s i && i <s n ==> S[nextSend(sqS(Q, i), sqD(Q, i))] == some(enc64(sqN(Q, i)))
+//@ func InitGenesis(ctx, k, gs)
+//@   props C16
+//@   modifies tibc
+//@   let A = gs.Acknowledgements
+//@   let C = gs.Commitments
+//@   let R = gs.Receipts
+//@   let Q = gs.SendSequences
+//@   requires acks.distinct:     forall i: i64, j: i64 :: 0 <=s i && i <s j && j <s seqlen(A) ==> !(psS(A, i) == psS(A, j) && psD(A, i) == psD(A, j) && psN(A, i) == psN(A, j))
+//@   requires commits.distinct:  forall i: i64, j: i64 :: 0 <=s i && i <s j && j <s seqlen(C) ==> !(psS(C, i) == psS(C, j) && psD(C, i) == psD(C, j) && psN(C, i) == psN(C, j))
+//@   requires seqs.distinct:     forall i: i64, j: i64 :: 0 <=s i && i <s j && j <s seqlen(Q) ==> !(sqS(Q, i) == sqS(Q, j) && sqD(Q, i) == sqD(Q, j))
+//@   requires data.nonnil:       (forall i: i64 :: 0 <=s i && i <s seqlen(A) ==> as(seqobj(A, i), types.PacketState).Data != nil) && (forall i: i64 :: 0 <=s i && i <s seqlen(C) ==> as(seqobj(C, i), types.PacketState).Data != nil)
+//@   ensures acks.imported:     acksIn(tibc, A, seqlen(A))
+//@   ensures commits.imported:  commitsIn(tibc, C, seqlen(C))
+//@   ensures receipts.imported: receiptsIn(tibc, R, seqlen(R))
+//@   ensures seqs.imported:     seqsIn(tibc, Q, seqlen(Q))
+//@   loop #0 invariant range: -1 <=s rangeindex && rangeindex <s seqlen(A)
+//@   loop #0 invariant done:  acksIn(tibc, A, rangeindex + 1)
+//@   loop #0 decreases seqlen(A) - 1 - rangeindex
+//@   loop #1 invariant range: -1 <=s rangeindex && rangeindex <s seqlen(C)
+//@   loop #1 invariant acks:  acksIn(tibc, A, seqlen(A))
+//@   loop #1 invariant done:  commitsIn(tibc, C, rangeindex + 1)
+//@   loop #1 decreases seqlen(C) - 1 - rangeindex
+//@   loop #2 invariant range: -1 <=s rangeindex && rangeindex <s seqlen(R)
+//@   loop #2 invariant acks:  acksIn(tibc, A, seqlen(A))
+//@   loop #2 invariant commits: commitsIn(tibc, C, seqlen(C))
+//@   loop #2 invariant done:  receiptsIn(tibc, R, rangeindex + 1)
+//@   loop #2 decreases seqlen(R) - 1 - rangeindex
+//@   loop #3 invariant range: -1 <=s rangeindex && rangeindex <s seqlen(Q)
+//@   loop #3 invariant acks:  acksIn(tibc, A, seqlen(A))
+//@   loop #3 invariant commits: commitsIn(tibc, C, seqlen(C))
+//@   loop #3 invariant receipts: receiptsIn(tibc, R, seqlen(R))
+//@   loop #3 invariant done:  seqsIn(tibc, Q, rangeindex + 1)
+//@   loop #3 decreases seqlen(Q) - 1 - rangeindex
